@@ -185,7 +185,10 @@ def run_wsgi_seq(bname, chunks, seq):
                 out.append(("val", v))
                 objs.setdefault("body", []).append(v)
             elif op == "stream":
-                out.append(("val", b"".join(r.stream())))
+                # the chunk size is the method's one (optional, positional-or-keyword) argument: every spelling reads the same bytes
+                k = (len(seq) + len(chunks) + len(out)) % 4
+                it = r.stream() if k == 0 else r.stream(7) if k == 1 else r.stream(chunk_size=3) if k == 2 else r.stream(1 << 20)
+                out.append(("val", b"".join(it)))
             elif op == "stream1":
                 it = r.stream()
                 next(it, None)
